@@ -381,6 +381,17 @@ def _main(check, argv):
         proof_problems.append("lake build failed: " + log.strip()[-1500:])
     else:
         discharged, proof_problems = audit(prop, check.obligations)
+    recheck = None
+    if ok and tier == "thorough" and check.lean_targets:
+        # independent re-check of the compiled modules of the property theorems (leanchecker
+        # replays every declaration of the .olean files through the kernel)
+        t_rc = time.time()
+        with build_lock():
+            code, out = run(["lake", "env", "leanchecker"] + list(check.lean_targets), cwd=LEAN, timeout=3000)
+        recheck = {"cmd": "lake env leanchecker " + " ".join(check.lean_targets), "exit": code,
+                   "wall_s": round(time.time() - t_rc, 1)}
+        if code != 0:
+            proof_problems.append("leanchecker rejects the compiled modules: " + out.strip()[-800:])
     hits = forbidden_tokens(list(check.lean_targets) + ["OdmlModel.Audit.%s" % prop, "Driver.%s" % check.driver()[4:].upper()])
     if hits:
         proof_problems.append("forbidden tokens in Lean sources: %s" % hits[:5])
@@ -550,6 +561,7 @@ def _main(check, argv):
             "trusted_base": check.trusted_base,
             "theorems": check.obligations,
             "proof_problems": proof_problems,
+            "kernel_recheck": recheck,
             "evaluations": len(cases),
             "distinct_nontrivial": len(nontrivial),
             "rule": check.rule,
